@@ -194,7 +194,7 @@ func buildC02(cfg *mon.Config) []*mon.Sub {
 		Exec: c02Exec,
 	}
 	tokapi := &mon.Sub{
-		Name: "token-api", Rule: "seeded valid and mutated expressions (random spacing and comments) are tokenized by a real expression tokenizer (whitespace tokens kept, comments and end marker skipped, strings decoded) and given to ParseTokens; the verdict and the compiled program must equal those of ParseString on the text, also when the same token slice is compiled a second time, when it is then handed to a calculator's SetOriginalTokens, and the caller's slice must be left untouched; distinct by hash",
+		Name: "token-api", Rule: "seeded valid and mutated expressions (random spacing and comments) are tokenized by a real expression tokenizer (whitespace tokens kept, comments and end marker skipped, strings decoded) and given to ParseTokens; the verdict and the compiled program must equal those of ParseString on the text, also when the same token slice is compiled a second time, when it is then handed to a calculator's SetOriginalTokens, the caller's slice must be left untouched, and the same list followed by an end-of-input token and further tokens must be rejected; distinct by hash",
 		Floor: 500,
 		Gen: func(emit func(string)) {
 			r := cfg.Rng("c02-tokapi")
@@ -243,6 +243,22 @@ func buildC02(cfg *mon.Config) []*mon.Sub {
 				}
 				if toksOf(toks) != snapshot {
 					c.Failf("ParseTokens modified the caller's token list", "source=%q\nbefore %s\nafter  %s", src, snapshot, toksOf(toks))
+					return
+				}
+			}
+			// a list cut by a tokenizer that keeps its end-of-input marker, with more tokens behind the marker, is no sentence
+			if refErr == nil {
+				tk2 := ctok.NewExpressionTokenizer()
+				setOptions(tk2, optSkipComments|optDecodeStrings)
+				list := append(tk2.TokenizeBuffer(strings.Trim(src, " \t\r\n")), tk.TokenizeBuffer(") * ] 7")...)
+				var err3 error
+				p3 := parsers.NewExpressionParser()
+				if pn := mon.Try(func() { err3 = p3.ParseTokens(list) }); pn != nil {
+					c.FailPanic("ParseTokens", pn)
+					return
+				}
+				if err3 == nil {
+					c.Failf("a token sequence that is not a sentence is accepted (tokens behind an end-of-input marker are ignored)", "source=%q followed by an end-of-input token and the tokens of %q: accepted as %v", src, ") * ] 7", gotProgram(p3.ResultTokens()))
 					return
 				}
 			}
